@@ -141,17 +141,30 @@ def layout_cases(rng):
             names.append("2020010%d_x.up.sql" % (i + 1))
     marker = rng.choice(MARKERS)
     files_dir = {"sqlc.json": cfg("mig"), "q/query.sql": q}
+    extra_names = {}
     for nm, g in zip(names, groups):
         body = "\n".join(l for c in g for l in c)
-        if rng.random() < 0.6:
+        r_ = rng.random()
+        if r_ < 0.5:
             body += "\n" + marker + "\n" + "\n".join(down)
+        elif r_ < 0.7:
+            # the migration is cut right before its marker: the next file (in order) STARTS with the marker line and has
+            # no other comment line; everything in it is rollback and must be ignored
+            rest = nm[:-4] + "_rest.sql"
+            files_dir["mig/" + rest] = marker + "\n" + "\n".join(down) + rng.choice(["", "\n"])
+            extra_names[nm] = rest
         files_dir["mig/" + nm] = body + rng.choice(["", "\n"])
     for decoy in rng.sample(["mig/0_x.down.sql", "mig/.0_hidden.sql", "mig/0_readme.md", "mig/zz.sql.bak", "mig/1_m.down.sql"], rng.randint(0, 3)):
         files_dir[decoy] = "CREATE TABLE decoy (a int);\n"
     as_dir = {"op": "generate", "files": files_dir}
     files_list = dict(files_dir)
-    plist = ["mig/" + nm for nm in names]
-    for decoy in [p for p in files_dir if p.startswith("mig/") and p[4:] not in names]:
+    plist = []
+    for nm in names:
+        plist.append("mig/" + nm)
+        if nm in extra_names:
+            plist.append("mig/" + extra_names[nm])
+    listed = set(p[4:] for p in plist)
+    for decoy in [p for p in files_dir if p.startswith("mig/") and p[4:] not in listed]:
         plist.insert(rng.randrange(len(plist) + 1), decoy)
     files_list["sqlc.json"] = cfg(plist)
     as_list = {"op": "generate", "files": files_list}
